@@ -482,6 +482,33 @@ def main():
     cp = os.path.join(vf.VERIF, "corpus", "C14", "cases.txt")
     if os.path.exists(cp):
         corpus = [l.rstrip("\n") for l in open(cp) if l.strip() and not l.startswith("#")]
+    if chk.replay:
+        # re-run the stored case only: implementation, model and monitor, printed in full
+        import json
+        d = json.load(open(chk.replay))
+        c = d.get("case")
+        if not c:
+            print("replay file has no 'case' (kind: %s): nothing to re-run" % d.get("kind"))
+            chk.scratch.cleanup()
+            sys.exit(2)
+        impl = run_harness(harness, [c], shards=1)
+        print("case :", c)
+        if impl[0] is None:
+            print("impl : DIED (libuv aborted or crashed)")
+            chk.violation("libuv aborted or crashed while running a script the model runs to the end",
+                          {"kind": "correspondence", "case": c}, found_input=True)
+            chk.finish(rule="replay of one stored case")
+        rf, cl, toks = split_impl(impl[0])
+        fds, pws = oracle_of(toks)
+        mout, _, _ = vf.run_lines([model], ["%s ; %s ; %s" % (c, fds, pws)], timeout=60)
+        reason = monitor_tokens(toks)
+        print("impl :", impl[0])
+        print("model:", mout[0] if mout else "(no output)")
+        print("agree:", bool(mout) and vf.canon(cl) == vf.canon(mout[0]), " monitor:", reason)
+        vf.diff_cases(chk, "core.c/linux.c/poll.c io watchers = Model/IoWatch.v (replay)", [c], [cl], mout,
+                      lambda cc, a: reason)
+        chk.finish(rule="replay of one stored case")
+
     n = 120000 if thorough else 2400
     cases = list(FIXED) + corpus + sweep_cases() + notify_cases() + foreign_cases() + lownum_cases()
     for i in range(1200 if thorough else 120):
